@@ -117,6 +117,7 @@ func H_C17_race() {
 	res := make([]*PersistentHybridIndex, 2)
 	errs := make([]error, 2)
 	done := make(chan int, 2)
+	vSchedFork(true)
 	vPreempt(2)
 	for g := 0; g < 2; g++ {
 		g := g
